@@ -94,10 +94,12 @@ func (fs *filestore) Add(bucket string, filename string, contents []byte, meta *
 	if err := os.WriteFile(f, contents, 0666); err != nil {
 		return fmt.Errorf("could not write:  %s: %w", f, err)
 	}
+	verifYield("filestore.Add.contentWritten")
 
 	// Force a new modification time, since this is what Generation is based on.
 	now := time.Now().UTC()
 	_ = os.Chtimes(f, now, now)
+	verifYield("filestore.Add.mtimeSet")
 
 	InitScrubbedMeta(meta, filename)
 	meta.Metageneration = 1
@@ -169,6 +171,7 @@ func (fs *filestore) Delete(bucket string, filename string) error {
 		if err := os.Remove(f); err != nil {
 			return err
 		}
+		verifYield("filestore.Delete.contentRemoved")
 		err := os.Remove(metaFilename(f))
 		if os.IsNotExist(err) {
 			// Legacy files do not have an accompanying metadata file.
